@@ -18,7 +18,7 @@ PROPS = {
     "C07": [("u_munify", "quick"), ("u_msubst", "quick"), ("u_mcall", "quick"), ("u_tmono", "quick"), ("u_minst", "quick"), ("u_fieldinst", "quick"), ("u_mtraitcall", "quick"), ("u_mwork", "quick")],
     "C15": [("u_art", "quick"), ("u_link", "quick"), ("u_deprec", "quick"), ("u_clilink", "quick")],
     "C09": [("u_dcefx", "quick"), ("u_ceffect", "quick"), ("u_dceblk", "quick"), ("u_ctrl", "quick"), ("u_letlow", "quick"), ("u_cexpr", "quick"), ("u_binop", "quick"), ("u_block", "quick"), ("u_matchentry", "quick"), ("u_anf", "quick"), ("u_anfmatch", "quick"), ("u_imm", "quick")],
-    "C11": [("u_bp", "quick"), ("u_pratt", "quick"), ("u_strlit", "quick"), ("u_calllower", "quick"), ("u_tylower", "quick"), ("u_floatlit", "quick")],
+    "C11": [("u_bp", "quick"), ("u_pratt", "quick"), ("u_strlit", "quick"), ("u_calllower", "quick"), ("u_tylower", "quick"), ("u_floatlit", "quick"), ("u_binlower", "quick")],
     "C04": [("u_mls", "quick"), ("u_input", "quick"), ("u_pcore", "quick"), ("u_tree", "quick"), ("u_kind", "quick"), ("u_grammar", "quick"), ("u_parse", "quick"), ("u_occurs", "quick"), ("u_tmono", "quick"), ("u_patlit", "quick"), ("u_annot", "quick"), ("u_dynvis", "quick"), ("u_link", "quick"), ("u_constrname", "quick"), ("u_placeholder", "quick"), ("u_report", "quick"), ("u_validty", "quick"), ("u_stagegate", "quick"), ("u_letlow", "quick")],
     "C12": [("u_lex", "quick"), ("u_mls", "quick"), ("u_input", "quick"), ("u_pcore", "quick"), ("u_tree", "quick"), ("u_kind", "quick"), ("u_grammar", "quick"), ("u_parse", "quick"), ("u_loadpkg", "quick")],
 }
